@@ -513,14 +513,22 @@ fn gen_regs(rng: &mut Rng, cfg: &GenCfg, k: &Knobs, resmap: &[RKey], budget: &mu
             regs.push(Reg::Sys { name: heavy, deps: vec![], reads: vec![], writes: vec![y], hint: 5, expect: false });
             let n = 4 + rng.below(3) as usize;
             let bulky = k.nres >= 11 && rng.chance(1, 2);
+            // what the bulky members mostly do with the other resources: the first writes and the
+            // second reads, or all of them read (read lists spill), or all write (write lists spill)
+            let flavour = rng.below(3);
             for j in 0..n {
                 let nm = gen_name(rng, &mut names, k);
                 let (mut reads, mut writes) = if j % 3 == 2 && rng.chance(1, 2) { (vec![x], vec![]) } else { (vec![], vec![x]) };
-                if bulky && j < 2 {
+                if bulky && j < 3 {
                     // members with long lists of their own: the group's accumulated lists spill
+                    let mostly_writes = match flavour {
+                        0 => j == 0,
+                        1 => false,
+                        _ => true,
+                    };
                     for i in 0..k.nres {
                         if i != x && i != y && rng.chance(3, 5) {
-                            if (j == 0) == rng.chance(4, 5) {
+                            if mostly_writes == rng.chance(9, 10) {
                                 writes.push(i);
                             } else {
                                 reads.push(i);
